@@ -100,6 +100,9 @@ def cases(shard, rnd):
                 for fo in follow:
                     inputs.append(fr_ + fo)
         yield {'type': 'mutants', 'tail': b'', 'inputs': inputs}
+    if shard['i'] == 1:
+        yield {'type': 'mutants', 'tail': b'', 'inputs': [
+            b for b, _ in faults.huge_size_headers(rnd)]}
     # the bare 7-byte headers of every frame type
     yield {'type': 'mutants', 'tail': b'', 'inputs': [
         struct.pack('>BHI', t, ch, sz) + extra
